@@ -2695,7 +2695,7 @@ mod real {
         r.s.tally_n("G:sweep||op-all-schedules", sets);
         // H. sampled program sets, every schedule up to a cap: sweep || two operations of one
         //    thread; sweep || two threads; two ticks || one operation
-        let (nh, cap) = if thorough { (150, 5_000) } else { (10, 350) };
+        let (nh, cap) = if thorough { (100, 3_000) } else { (10, 350) };
         let pres = sweep_pres();
         for i in 0..3 * nh {
             let pre = rng.pick(&pres).clone();
